@@ -3,6 +3,9 @@
 import json, subprocess
 ALL = ["C%02d" % i for i in range(1, 21)]
 CLAIMED = {
+ "C08": dict(level="exploration", technique="runtime differential + structural invariant at quiescent points: live state, MemStorage contents and ListRules vs the model's dependency closure after every deletion; per-call watchdog for termination",
+   text="Generated dependency graphs (cycles, self-loops, dangling targets, rules, property facts, variable-looking ids) are built in real locations of both state kinds; after each explicit, dependent or expiry-triggered deletion the survivors in memory and in storage must equal the model closure and the call must return.",
+   note="Trusts lib/ref.Loc.Rem; MemStorage only (durability across back ends is C06); expiry cascades use ttl 1 s observed after 2.2 s.", ref="§5 C08"),
  "C02": dict(level="exploration", technique="differential runtime oracle over generated histories: SearchFacts/GetFact/AddFact/RemFact on indexed and linear state in lock-step vs a reference location model + brute-force matcher; generated-id freshness monitor",
    text="Every operation of generated add/overwrite/remove/get/search histories is executed on both state implementations and compared with the model (result sets of (id, bindings), get values, ids); held-on-K-operations assurance for a for-all-histories claim about a candidate-filter index.",
    note="Trusts lib/ref; facts without variable-looking strings and without ttl/expires; three open known findings classified by pattern shape.", ref="§5 C02"),
